@@ -159,6 +159,8 @@ class NestedTransdimensional(BaseProposal):
                 pass
 
     def _update(self, chain):
+        # the model-hopping proposal takes part in every step
+        self.model_proposal.update(chain)
         # check that proposal has been stepped in at least twice in a row
         if chain.iteration > 1:
             for prop in self.proposals:
